@@ -1,9 +1,59 @@
 import Driver.Loop
+import Midgard.Model.TimeArrayHist
+import Midgard.Generated.TimeArrayMech
 
-/-! Driver for C04: placeholder until the model is written. -/
+/-! Driver for C04: one line = one whole history.
+`c04 run <clear:0|1|src> F:<base>:<n> … | <op> <op> …`  (ops are `:`-separated tokens)
+`src` takes the mechanism flag read off the source by the translator. -/
 namespace Driver.C04
+open Midgard.Proto Midgard.TimeArrayHist
+
+def optInt? (s : String) : Option (Option Int) := if s = "_" then some none else (s.toInt?).map some
+
+def parseSel? : List String → Option Sel
+  | ["s", a, b, c] => do
+    let a ← optInt? a; let b ← optInt? b; let c ← c.toInt?
+    pure (.slice a b c)
+  | ["m", bits] => some (.mask (bits.toList.map (· == '1')))
+  | ["m"] => some (.mask [])
+  | ["i", l] => (parseInts? l).map .idx
+  | _ => none
+
+def parseOp? (tok : String) : Option Op :=
+  match tok.splitOn ":" with
+  | ["getint", t, i] => do pure (.getInt (← t.toNat?) (← i.toInt?))
+  | "getsel" :: t :: rest => do pure (.getSel (← t.toNat?) (← parseSel? rest))
+  | ["view", t] => do pure (.view (← t.toNat?))
+  | ["copy", t] => do pure (.copy (← t.toNat?))
+  | "subset" :: t :: rest => do pure (.subset (← t.toNat?) (← parseSel? rest))
+  | ["insert", a, p, b] => do pure (.insert (← a.toNat?) (← p.toInt?) (← b.toNat?))
+  | ["scale", t] => do pure (.scale (← t.toNat?))
+  | ["iter", t] => do pure (.iter (← t.toNat?))
+  | ["set", t] => do pure (.set (← t.toNat?))
+  | _ => none
+
+def showNats (l : List Nat) : String := showList toString l
+
+def showObs (o : Obs) : String :=
+  s!"{showBool o.scalar}:{showNats o.vals}:{showNats o.jd1}:{showNats o.jd2}"
+
+def showOut : Out → String
+  | .arr o => "A:" ++ showObs o
+  | .many os => "M:" ++ ";".intercalate (os.map showObs)
+  | .error => "E"
+
+def parseFresh? (tok : String) : Option Arr :=
+  match tok.splitOn ":" with
+  | ["F", b, n] => do pure (fresh (← b.toNat?) (← n.toNat?))
+  | _ => none
 
 def handle : List String → Option String
+  | "c04" :: "run" :: clear :: rest => do
+    let clear ← if clear = "src" then some Midgard.Generated.TimeArrayMech.clearsSideChannel else parseBool? clear
+    let (fr, ops) := rest.span (· ≠ "|")
+    let heap ← fr.mapM parseFresh?
+    let ops ← (ops.drop 1).mapM parseOp?
+    pure ("|".intercalate ((Midgard.TimeArrayHist.run clear heap ops).2.map showOut))
   | _ => none
 
 end Driver.C04
